@@ -166,6 +166,7 @@ type JL struct {
 	succ                     map[int]bool
 	nokube                   map[string]bool
 	faulted                  bool
+	rejected                 bool
 	killed, deleted, started bool
 }
 
@@ -471,6 +472,20 @@ func (j *JL) Apply(l Label) bool {
 			return x
 		})
 		j.started = true
+	case "Reject": // the queue controller refuses the Job before it starts (concurrency policy Forbid): admission-error annotation
+		cur := j.jobObj()
+		if cur == nil || !cur.Status.StartTime.IsZero() {
+			return false
+		}
+		if _, adm := jobutil.GetAdmissionErrorMessage(cur); adm {
+			return false
+		}
+		w.API.Mutate("jobs", ns, jlName, func(o runtime.Object) runtime.Object {
+			x := o.(*execution.Job)
+			jobutil.MarkAdmissionError(x, "concurrency policy forbids exceeding maximum concurrency (1 >= 1)")
+			return x
+		})
+		j.rejected = true
 	case "UserKill":
 		cur := j.jobObj()
 		if cur == nil || cur.Spec.KillTimestamp != nil {
@@ -663,8 +678,11 @@ func (j *JL) Enabled(rng *rand.Rand, maxTime int, faultP float64, applied bool) 
 		add(Label{A: "Tick"}, 2)
 	}
 	job := j.jobObj()
-	if job != nil && job.Status.StartTime.IsZero() {
+	if job != nil && job.Status.StartTime.IsZero() && !j.rejected {
 		add(Label{A: "Start"}, 3)
+		if rng.Intn(12) == 0 {
+			add(Label{A: "Reject"}, 1)
+		}
 	}
 	if job != nil && job.Spec.KillTimestamp == nil && rng.Intn(14) == 0 {
 		add(Label{A: "UserKill", D: rng.Intn(4)}, 1)
@@ -741,7 +759,7 @@ func (j *JL) Drain(budget int) bool {
 }
 
 func (j *JL) Finale(budget int) bool {
-	if job := j.jobObj(); job != nil && job.Status.StartTime.IsZero() {
+	if job := j.jobObj(); job != nil && job.Status.StartTime.IsZero() && !j.rejected {
 		j.Apply(Label{A: "Start"})
 	}
 	if !j.Drain(budget) {
